@@ -516,7 +516,7 @@ func main() {
 	hx.Main(hx.Prop{
 		ID: "C38",
 		Rule: "operation sequences (3-14 ops) on the real ClientImpl with a wallet file under build/tmp and low-cost scrypt parameters in the file: imports of 6 deterministic keys " +
-			"(same key twice, foreign scrypt parameters, empty password, bad key type / scheme), NewAccount (rare: it always pays one default-cost scrypt), deletes (default, wrong password), " +
+			"(same key twice, foreign scrypt parameters, empty password, bad key type / scheme), NewAccount, deletes (default, wrong password), " +
 			"set default, relabel (duplicate, empty, same), password changes (wrong old, same, empty new), scheme changes, reopen in the middle. Non-trivial = the wallet ends with >= 1 account",
 		Gen:    gen,
 		Exec:   exec,
